@@ -515,9 +515,29 @@ def run(repo, chk):
                 if isinstance(c, ast.Call) and norm(c.func) == "tokens.append" and c.args and isinstance(c.args[0], ast.Call) and norm(c.args[0].func) == "Token":
                     ty = kwarg(c.args[0], "type")
                     fallback = fallback or (isinstance(ty, ast.Constant) and ty.value is None)
-        incs = sorted(expand(n, lx0.node) for n in ast.walk(wl0[0]) if isinstance(n, ast.AugAssign) and norm(n.target) == "current")
-        starts = [norm(kwarg(c, "start")) for c in ast.walk(wl0[0]) if isinstance(c, ast.Call) and norm(c.func) == "Token" and kwarg(c, "start") is not None]
-        pos_ok = incs == ["current += 1", "current += m.end()"] and starts == ["current", "current"]
+        # by how much the offset advances, whatever the spelling (`current += n`, `current = current + n`, through a temporary)
+        steps = []
+        for n in ast.walk(wl0[0]):
+            if isinstance(n, ast.AugAssign) and norm(n.target) == "current" and isinstance(n.op, ast.Add):
+                steps.append(expand(n.value, lx0.node))
+            elif isinstance(n, ast.Assign) and len(n.targets) == 1 and norm(n.targets[0]) == "current":
+                v = ast.parse(expand(n.value, lx0.node), mode="eval").body
+                if isinstance(v, ast.Name):
+                    # a temporary computed earlier in the same block from the offset (`end = current + k; ...; current = end`), the offset untouched in between
+                    blk = getattr(n, "_parent", None)
+                    body_ = next((b for b in (getattr(blk, "body", None), getattr(blk, "orelse", None)) if isinstance(b, list) and n in b), None)
+                    if body_ is not None:
+                        before = body_[:body_.index(n)]
+                        defs_ = [d for d in before if isinstance(d, ast.Assign) and len(d.targets) == 1 and is_name(d.targets[0], v.id)]
+                        if len(defs_) == 1 and not any(isinstance(x, ast.Name) and x.id == "current" and isinstance(x.ctx, ast.Store)
+                                                       for d in before[before.index(defs_[0]) + 1:] for x in ast.walk(d)):
+                            v = ast.parse(expand(defs_[0].value, lx0.node), mode="eval").body
+                if isinstance(v, ast.BinOp) and isinstance(v.op, ast.Add) and norm(v.left) == "current":
+                    steps.append(norm(v.right))
+                else:
+                    steps.append(f"<{norm(v)}>")
+        starts = [expand(kwarg(c, "start"), lx0.node) for c in ast.walk(wl0[0]) if isinstance(c, ast.Call) and norm(c.func) == "Token" and kwarg(c, "start") is not None]
+        pos_ok = sorted(steps) == ["1", "m.end()"] and starts == ["current", "current"]
     chk.ob("R18.1", "opparse.Lexer.__call__:unmatched-character-becomes-a-token", fallback, lx0.where,
            "a character that no pattern matches becomes a token of type None (which the precedence tower refuses with a located syntax error) instead of being skipped silently")
     chk.ob("R18.1", "opparse.Lexer.__call__:positions-tracked", pos_ok, lx0.where, "every token records the offset at which it starts (syntax errors point at the offending position)")
@@ -535,7 +555,11 @@ def run(repo, chk):
         kf = KindFlow(repo, attrs)
         env = {}
         if fi.qual == "selector._guarantee_call":
-            env = {fi.node.args.args[1].arg: set(E_KINDS)}
+            # the operand parameter is the one the function tests with isinstance(<p>, Call) (whatever its position in the signature)
+            tested = [norm(c.args[0]) for c in ast.walk(fi.node) if isinstance(c, ast.Call) and is_name(c.func, "isinstance") and len(c.args) == 2 and isinstance(c.args[0], ast.Name)]
+            pnames = [a.arg for a in fi.node.args.posonlyargs + fi.node.args.args + fi.node.args.kwonlyargs]
+            operand = next((t for t in tested if t in pnames), pnames[1] if len(pnames) > 1 else None)
+            env = {operand: set(E_KINDS)} if operand else {}
         if fi.qual == "selector._select":
             # a string, or what parsing a string gives; anything else is the caller's own object (refused by the isinstance test)
             env = {fi.node.args.args[0].arg: {"str"} | set(E_KINDS)}
@@ -634,7 +658,7 @@ def run(repo, chk):
     # ---------------- R18.4
     lx = repo.func("opparse.Lexer.__call__")
     wl = [n for n in walk_local(lx.node) if isinstance(n, ast.While)]
-    ok = len(wl) == 1 and norm(wl[0].test) == "code"
+    ok = len(wl) == 1 and norm(wl[0].test) in ("code", "len(code) > 0", "len(code) != 0", "len(code) >= 1", "code != ''")
     if ok:
         shrinks = [expand(n, lx.node) for n in ast.walk(wl[0]) if isinstance(n, ast.Assign) and norm(n.targets[0]) == "code"]
         ok = sorted(shrinks) == sorted(["code = code[m.end():]", "code = code[1:]"])
